@@ -254,7 +254,7 @@ pub fn real_queenssols(bindir: &str, n: usize) -> String {
     let mut accepted_wrong: Option<String> = None;
     let mut nsat = 0usize;
     for s in &sols {
-        let val = |name: &str| -> bool { name.strip_prefix("v_").and_then(|k| k.parse::<usize>().ok()).map(|k| s[k / n] == k % n).unwrap_or(false) };
+        let val = |name: &str| -> bool { name.strip_prefix("v_").and_then(|k| k.parse::<usize>().ok()).map(|k| k / n < n && s[k / n] == k % n).unwrap_or(false) };
         match eval_generated(&p.bdd, &val) {
             Some(true) => nsat += 1,
             Some(false) => {
@@ -272,7 +272,7 @@ pub fn real_queenssols(bindir: &str, n: usize) -> String {
                 }
                 let mut t = s.clone();
                 t[row] = c;
-                let val2 = |name: &str| -> bool { name.strip_prefix("v_").and_then(|k| k.parse::<usize>().ok()).map(|k| t[k / n] == k % n).unwrap_or(false) };
+                let val2 = |name: &str| -> bool { name.strip_prefix("v_").and_then(|k| k.parse::<usize>().ok()).map(|k| k / n < n && t[k / n] == k % n).unwrap_or(false) };
                 if eval_generated(&p.bdd, &val2) == Some(true) && accepted_wrong.is_none() && !sols.contains(&t) {
                     accepted_wrong = Some(t.iter().map(|c| c.to_string()).collect::<Vec<_>>().join(" "));
                 }
